@@ -36,6 +36,8 @@ import json
 import os
 import random
 import re
+import shutil
+import tempfile
 import time
 import tokenize
 import warnings
@@ -44,7 +46,8 @@ from concurrent.futures import ProcessPoolExecutor, ThreadPoolExecutor
 from .. import core, gen, tlc
 
 NPROC = 14
-JVM = {'JAVA_TOOL_OPTIONS': '-Xmx3g -Xss16m'}
+# single-worker TLC runs: small heap, two GC threads, C1 only (measured: 3x less CPU per batch than the defaults)
+JVM = {'JAVA_TOOL_OPTIONS': '-Xmx3g -Xss16m -XX:ParallelGCThreads=2 -XX:TieredStopAtLevel=1'}
 PKG = 'acme.tx.v1'
 PKGDIR = 'acme/tx_v1/'
 ORIGINS = ['message', 'field', 'enum', 'value', 'service', 'method']
@@ -92,10 +95,27 @@ def norm_ast(src):
 
 # ---------------------------------------------------------------------------------------------------
 # TLC batches
+def run_traces(cfg, traces, timeout=3000):
+    """one single-worker TLC run of TextTrace over a batch (as tlc.validate_traces, with the fast JSON encoder)"""
+    work = tempfile.mkdtemp(prefix='tlctr-')
+    try:
+        tf = os.path.join(work, 'traces.json')
+        with open(tf, 'w') as f:
+            f.write(json.dumps(traces, separators=(',', ':')))
+        r = tlc.run('TextTrace', cfg, workers=1, env=dict(JVM, TRACE_FILE=tf), timeout=timeout, deadlock=False)
+    finally:
+        shutil.rmtree(work, ignore_errors=True)
+    n = None
+    for v in r.tagged.get('ACCEPTED', []):
+        if v.strip().isdigit():
+            n = int(v.strip())
+    return n, r
+
+
 def _classify(traces, descs):
     """one TLC run over a batch: total verdicts.  Returns dict(n, accepted, classes{key: [count, clauses, desc]},
     generated, distinct)."""
-    n, r = tlc.validate_traces('TextTrace', 'TextTrace.classify.cfg', traces, env=JVM, timeout=3000)
+    n, r = run_traces('TextTrace.classify.cfg', traces)
     if n is None or n != len(traces) or r.violated is not None:
         return dict(error=f'TextTrace.classify walked {n} of {len(traces)} traces (violated={r.violated} rc={r.rc})\n'
                           + r.out[-3000:])
@@ -160,15 +180,21 @@ def _strict_one(tr):
     return acc, [(i, info) for i, _t, info in rej]
 
 
-def confirm_and_report(chk, classes, ok_sample, label):
-    """strict re-validation (Inv_Post as INVARIANT): every class representative must be rejected in isolation,
-    the sample of accepted traces must be accepted; then report one violation per class."""
-    keys = sorted(classes)
+def confirm_and_report(chk, classes, ok_sample, label, quick=False):
+    """strict re-validation (Inv_Post as INVARIANT): class representatives must be rejected in isolation (quick: the
+    first class of every function, thorough: every class), the sample of accepted traces must be accepted; then
+    report one violation per class."""
+    allkeys = sorted(classes)
+    keys = allkeys
+    if quick:
+        first = {}
+        for k in allkeys:
+            first.setdefault(k.split(':')[0], k)
+        keys = sorted(first.values())
     with ThreadPoolExecutor(8) as ex:
+        okf = ex.submit(tlc.validate_all, 'TextTrace', 'TextTrace.cfg', ok_sample, env=JVM, timeout=900) if ok_sample else None
         res = list(ex.map(_strict_one, [classes[k][4] for k in keys]))
-        okres = ex.submit(lambda: tlc.validate_all('TextTrace', 'TextTrace.cfg', ok_sample, env=JVM, timeout=900)) \
-            if ok_sample else None
-        okres = okres.result() if okres else None
+        okres = okf.result() if okf else None
     for k, (acc, rej) in zip(keys, res):
         if acc != 0 or not rej or rej[0][1].get('violated') != 'Inv_Post':
             raise core.MachineryError(f'{label}: class {k} was rejected in the batch but not by TextTrace.cfg alone: {acc} {rej}')
@@ -179,7 +205,7 @@ def confirm_and_report(chk, classes, ok_sample, label):
         chk.tlc_runs.append(dict(label=label + ' (TextTrace.cfg strict, accepted sample)', traces=len(ok_sample), accepted=acc))
     chk.tlc_runs.append(dict(label=label + ' (TextTrace.cfg strict, one run per class representative)', runs=len(keys),
                              rejected=len(keys)))
-    for k in keys:
+    for k in allkeys:
         cnt, clauses, d, _size, tr = classes[k]
         d = {x: y for x, y in d.items() if x not in ('keyfmt', 'size')}
         chk.violation(k, f'{cnt} observation(s) violate clause(s) {clauses}; minimal: {json.dumps(d)[:900]}',
@@ -210,7 +236,7 @@ def _text_job(job):
                 out, raised = '', 'not-a-string'
             traces.append(dict(fn=fn, events=[dict(ev='in_text', toks=toks), dict(ev='par_' + fn, **p),
                                               dict(ev='out_text', atoms=lex(out), raised=raised)]))
-            descs.append(dict(keyfmt=fn + ':{cls}', size=len(text) * 1000 + p['width'], fn=fn, toks=toks, text=text,
+            descs.append(dict(keyfmt=fn + ':{cls}', size=len(toks) * 1000000 + len(text) * 1000 + p['width'], fn=fn, toks=toks, text=text,
                               par=p, out=out, raised=raised))
     res = _classify(traces, descs)
     res['nontrivial'] = sorted({f'{fn}:{" ".join(toks)}' for fn, toks, text, _p in job if len(text.split()) >= 2})
@@ -223,7 +249,7 @@ def part_text(chk, quick, rnd, pool):
     chk.add_tlc(r, 'Text input emission (texts, exhaustive)')
     pcases, r = tlc.emit_cases('Text', 'Text.emit.params.cfg', deadlock=False)
     chk.add_tlc(r, 'Text parameter emission')
-    sims, r = tlc.emit_cases('Text', 'Text.emit.simtexts.cfg', deadlock=False, simulate=1500 if quick else 12000,
+    sims, r = tlc.emit_cases('Text', 'Text.emit.simtexts.cfg', deadlock=False, simulate=800 if quick else 12000,
                              depth=12, seed=chk.seed + 1, timeout=1500)
     chk.add_tlc(r, 'Text input emission (texts, random walks)')
     if not cases or not pcases or not sims:
@@ -237,15 +263,18 @@ def part_text(chk, quick, rnd, pool):
     rst_p = [c['par'] for c in pcases if c['fn'] == 'rst']
     conv_p = [c['par'] for c in pcases if c['fn'] == 'rst' and c['conv']]
     conv = sorted((c for c in cases if c['conv']), key=lambda c: c['toks'])
-    conv = rnd.sample(conv, min(len(conv), 24 if quick else 300))
-    units = [('wrap', c['toks'], c['text'], wrap_p) for c in cases]
-    units += [('rst', c['toks'], c['text'], rst_p) for c in cases if not c['conv']]
+    conv = rnd.sample(conv, min(len(conv), 8 if quick else 300))
+    def some(plist, c):
+        # quick tier: every parameter tuple for texts up to 2 tokens, a seeded choice of 3 tuples for longer ones
+        return plist if not quick or len(c['toks']) <= 2 else rnd.sample(plist, 3)
+    units = [('wrap', c['toks'], c['text'], some(wrap_p, c)) for c in cases]
+    units += [('rst', c['toks'], c['text'], some(rst_p, c)) for c in cases if not c['conv']]
     convunits = [('rst', c['toks'], c['text'], conv_p) for c in conv]
     # jobs of about 20 000 observations; the slow converter calls are spread over all jobs
     jobs, cur, n = [], [], 0
     for u in units:
         cur.append(u); n += len(u[3])
-        if n >= 20000:
+        if n >= (4000 if quick else 20000):
             jobs.append(cur); cur, n = [], 0
     if cur:
         jobs.append(cur)
@@ -256,7 +285,7 @@ def part_text(chk, quick, rnd, pool):
         agg.add(res)
         chk.nontrivial.update(res['nontrivial'])
     classes = agg.finish()
-    confirm_and_report(chk, classes, agg.ok_sample, 'wrap/rst')
+    confirm_and_report(chk, classes, agg.ok_sample, 'wrap/rst', quick)
     chk.extra['texts'] = dict(exhaustive=nex, random_walk=len(cases) - nex, wrap_params=len(wrap_p), rst_params=len(rst_p),
                               converter_texts=len(conv), observations=agg.n)
     chk.sample(dict(fn='wrap', toks=cases[7]['toks'], text=cases[7]['text'], params=wrap_p[0]))
@@ -431,7 +460,7 @@ def part_fix(chk, quick, rnd, pool):
             seen.add(k); allc.append(c['items'])
     pcases, r = tlc.emit_cases('Text', 'Text.emit.params.cfg', deadlock=False)
     endings = [c['par']['ending'] for c in pcases if c['fn'] == 'fixws']
-    per = 4000
+    per = 400 if quick else 4000
     units = [(items, endings) for items in allc]
     jobs = [units[i:i + per] for i in range(0, len(units), per)]
     futs = [pool.submit(_emitted_job, w) for w in ('pager', 'docs')]
@@ -448,7 +477,7 @@ def part_fix(chk, quick, rnd, pool):
         chk.nontrivial.update(res['nontrivial'])
         nfiles += res['files']; norec += res['no_recorded_call']
     classes = agg.finish()
-    confirm_and_report(chk, classes, agg.ok_sample, 'fix_whitespace')
+    confirm_and_report(chk, classes, agg.ok_sample, 'fix_whitespace', quick)
     chk.extra['sources'] = dict(layouts_exhaustive=nex + len(extra), layouts_random_walk=len(allc) - nex - len(extra),
                                 endings=endings, emitted_py_files=nfiles, emitted_without_recorded_call=norec,
                                 observations=agg.n)
@@ -596,7 +625,7 @@ def part_embed(chk, quick, rnd, pool):
         chk.nontrivial.update(res['nontrivial'])
         nwarn += res['syntax_warnings']
     classes = agg.finish()
-    confirm_and_report(chk, classes, agg.ok_sample, 'embed')
+    confirm_and_report(chk, classes, agg.ok_sample, 'embed', quick)
     chk.extra['embedding'] = dict(docs=len(docs), origins=origins, generations=len(units), observations=agg.n,
                                   syntax_warnings_in_emitted_modules=nwarn)
     chk.sample(dict(fn='embed', toks=docs[-1]['toks'], text=docs[-1]['text'], origin='service'))
@@ -665,7 +694,7 @@ def main(chk, args):
         t0 = time.time()
         account_spec(chk, *spec.result())
         walls['spec_wait'] = round(time.time() - t0, 1)
-    chk.exhaustive = True
+    chk.exhaustive = not quick     # quick: parameter tuples are sampled for texts of 3+ tokens
     chk.rule = ('observations = one call of the real code each: (text, parameter tuple) for wrap and rst - texts are ALL token '
                 'strings up to 3 (quick) / 4 (thorough) tokens over the 16-token alphabet of Text.tla plus TLC random walks of '
                 '5..8 tokens, crossed with every parameter tuple of the specification (offset < width); (layout, ending) for '
